@@ -63,6 +63,8 @@ DenseStep(st, o, C, K) ==
     [] o.op = "set_row"       -> [st |-> [st EXCEPT ![o.tgt] = SetRowOf(m, o.i, o.row)], obs |-> Len(m)]
     [] o.op = "fill"          -> [st |-> [st EXCEPT ![o.tgt] = ConstRows(C, Len(m), o.v)], obs |-> Len(m)]
     [] o.op = "from_rows"     -> [st |-> [st EXCEPT ![o.tgt] = o.rows], obs |-> Len(o.rows)]
+    \* from_rows over the OTHER matrix's own row iterator (any exact-size iterator of rows is a legal argument)
+    [] o.op = "from_rows_other" -> [st |-> [st EXCEPT ![o.tgt] = st[Other(o.tgt)]], obs |-> Len(st[Other(o.tgt)])]
     [] o.op = "clone_to_other"-> [st |-> [st EXCEPT ![Other(o.tgt)] = m], obs |-> Len(m)]
     [] o.op = "clone_from"    -> [st |-> [st EXCEPT ![Other(o.tgt)] = m], obs |-> Len(m)]   \* other.clone_from(&m): reuses other's storage
     [] o.op = "iter_ends"     -> [st |-> st, obs |-> IterEnds(m, o.pat)]                     \* iter() or iter_mut() (o.mutable), no writes
